@@ -45,6 +45,15 @@ def build_word(row, raw, tweak):
             v = sel & 7
         for j, p in enumerate(reversed(row.fields[c])):
             w = (w & ~(1 << p)) | (((v >> j) & 1) << p)
+    # 16-bit encodings with a split register number (D:ddd / N:nnn): SP / LR / PC more often than 1/16 each
+    for hi, lo in (('D', 'd'), ('N', 'n')):
+        if hi in row.fields and lo in row.fields and len(row.fields[hi]) == 1 and len(row.fields[lo]) == 3:
+            sel = (tweak >> 24) & 7
+            if sel < 3:
+                v = (15, 13, 14)[sel]
+                w = (w & ~(1 << row.fields[hi][0])) | ((v >> 3) << row.fields[hi][0])
+                for j, p_ in enumerate(reversed(row.fields[lo])):
+                    w = (w & ~(1 << p_)) | (((v >> j) & 1) << p_)
     if 'c' in row.fields and len(row.fields['c']) == 4 and row.n == 32 and row.fields['c'][0] == 31:
         sel = (tweak >> 28) & 7
         if sel < 4:
@@ -149,6 +158,12 @@ def one_case(acc, plan, case, rowname, wordrepr):
             r2 = diff.run(case, quirks=(key,))
             if not r2.diffs and r2.status not in ('unpred', 'skip', 'host-error'):
                 acc.known_hit(key)
+                return res
+        for key in known.match_elsewhere(plan.prop, res, case):
+            r2 = diff.run(case, quirks=(key,))
+            if not r2.diffs and r2.status not in ('unpred', 'skip', 'host-error'):
+                acc.excluded += 1
+                acc.cls('excluded:finding-listed-under-another-property:' + key)
                 return res
         b = '%s:%s:%s:%s%s' % (plan.prop, row, res.status, 'condfail:' if res.cond_passed is False else '', sig(res.diffs))
         acc.violation(b, case, {'diffs(expected,observed)': e1.fmt_diff(res.diffs), 'ref_status': res.status, 'ref_detail': res.detail,
